@@ -444,6 +444,34 @@ func (m *Model) refBalance(v view, tip [32]byte, addr string) *big.Int {
 	return new(big.Int).Sub(in, out)
 }
 
+// maxRepresentable is (2^64-1)*10^18 + 10^18-1.
+var maxRepresentable = func() *big.Int {
+	x := new(big.Int).Lsh(big.NewInt(1), 64)
+	x.Mul(x, new(big.Int).SetUint64(spice.MaxAmountPerSupplementaryCurrency))
+	return x.Sub(x, big.NewInt(1))
+}()
+
+// grossFlow returns the gross inflow and outflow behind refBalance.
+func (m *Model) grossFlow(v view, tip [32]byte, addr string) (*big.Int, *big.Int) {
+	set := map[[32]byte]bool{tip: true}
+	stack := [][32]byte{tip}
+	for len(stack) > 0 {
+		h := stack[len(stack)-1]
+		stack = stack[:len(stack)-1]
+		x := v.live[h]
+		for _, p := range [][32]byte{x.LeftParentHash, x.RightParentHash} {
+			if _, ok := v.live[p]; ok && !set[p] {
+				set[p] = true
+				stack = append(stack, p)
+			}
+		}
+	}
+	for h := range v.stored {
+		set[h] = true
+	}
+	return m.W.Ref.Flow(addr, set)
+}
+
 // balanceAt asks the node for the balance of addr with the given tip forced to be the one used.
 func (m *Model) balanceAt(i int, tipName string, addr string) (spice.Melange, error) {
 	return m.balanceOn(m.nodes[i], tipName, addr)
@@ -497,8 +525,15 @@ func (m *Model) checkC06(post []view) []common.Violation {
 						}
 						out = append(out, viol("C06", "C06.error-iff-negative", "C06.number-for-negative-sum/"+cause, fmt.Sprintf("node %d tip %s: balance of %s is %s but the query returned %d.%d", i, R.Name(tip), world.AddrName(a), want, got.Currency, got.SupplementaryCurrency), nil))
 					}
+				case err != nil && want.Cmp(maxRepresentable) > 0:
+					m.counters["C06.unrepresentable"]++ // the true sum does not fit the two-part currency: an error is the only honest answer
 				case err != nil:
-					out = append(out, viol("C06", "C06.equals-reference", "C06.error-on-representable/"+world.ErrClass(err), fmt.Sprintf("node %d tip %s: balance of %s is %s but the query failed: %v", i, R.Name(tip), world.AddrName(a), want, err), nil))
+					cause := world.ErrClass(err)
+					in, _ := m.grossFlow(v, tip, a)
+					if in.Cmp(maxRepresentable) > 0 {
+						cause = "gross-inflow-exceeds-2^64"
+					}
+					out = append(out, viol("C06", "C06.equals-reference", "C06.error-on-representable/"+cause, fmt.Sprintf("node %d tip %s: balance of %s is %s but the query failed: %v", i, R.Name(tip), world.AddrName(a), want, err), nil))
 				case world.Big(got).Cmp(want) != 0:
 					m.counters["C06.mismatch"]++
 					out = append(out, viol("C06", "C06.equals-reference", "C06.wrong-balance", fmt.Sprintf("node %d tip %s: balance of %s is %s, node reports %s", i, R.Name(tip), world.AddrName(a), want, world.Big(got)), nil))
@@ -558,6 +593,8 @@ func SnapshotOracles(w *world.LW, n *world.Node, props ...string) []common.Viola
 			out = append(out, m.checkC10(0, v)...)
 		case "C02":
 			out = append(out, m.checkC02(0, v)...)
+		case "C07":
+			out = append(out, m.checkC07State(0, v)...)
 		}
 	}
 	return out
